@@ -440,18 +440,17 @@ package phase0
 //@   loop *
 //@     invariant ctx_t >= old(ctx_t) && (old(ctx_seen) || !ctx_seen)
 //@     invariant ctx_t > old(ctx_t) ==> !ctx_cancelled(ctx, old(ctx_t))
-//@   requires spec != nil && data != nil && state != nil
 //@   assigns ghost(n_set_prevjust), ghost(set_prevjust), ghost(n_set_curjust), ghost(set_curjust), ghost(n_set_fin), ghost(set_fin), ghost(n_set_jbits), ghost(set_jbits)
 //@   ensures c02_genesis: err == nil && old(data.CurrentEpoch) <= 1 ==> n_set_prevjust == old(n_set_prevjust) && n_set_curjust == old(n_set_curjust) && n_set_fin == old(n_set_fin) && n_set_jbits == old(n_set_jbits)
-//@   ensures c02_rotate: err == nil && spec.SLOTS_PER_EPOCH != 0 && old(data.CurrentEpoch) > 1 && old(data.TotalActiveStake) < 4611686018427387904 && old(data.PrevEpochUnslashedTargetStake) < 4611686018427387904 && old(data.CurrEpochUnslashedTargetStake) < 4611686018427387904 ==> n_set_prevjust == old(n_set_prevjust) + 1 && set_prevjust == st_curjust(state)
-//@   ensures c02_bits: err == nil && spec.SLOTS_PER_EPOCH != 0 && old(data.CurrentEpoch) > 1 && old(data.TotalActiveStake) < 4611686018427387904 && old(data.PrevEpochUnslashedTargetStake) < 4611686018427387904 && old(data.CurrEpochUnslashedTargetStake) < 4611686018427387904 ==> n_set_jbits == old(n_set_jbits) + 1 && set_jbits[0] == (((st_jbits(state)[0] * 2) % 16) + ite(old(data.PrevEpochUnslashedTargetStake) * 3 >= old(data.TotalActiveStake) * 2 && !jbit(((st_jbits(state)[0] * 2) % 16), 1), 2, 0) + ite(old(data.CurrEpochUnslashedTargetStake) * 3 >= old(data.TotalActiveStake) * 2 && !jbit(((st_jbits(state)[0] * 2) % 16), 0), 1, 0))
-//@   ensures c02_justify_current: err == nil && spec.SLOTS_PER_EPOCH != 0 && old(data.CurrentEpoch) > 1 && old(data.TotalActiveStake) < 4611686018427387904 && old(data.PrevEpochUnslashedTargetStake) < 4611686018427387904 && old(data.CurrEpochUnslashedTargetStake) < 4611686018427387904 && old(data.CurrEpochUnslashedTargetStake) * 3 >= old(data.TotalActiveStake) * 2 ==> n_set_curjust == old(n_set_curjust) + 1 && set_curjust.Epoch == old(data.CurrentEpoch) && set_curjust.Root == roots_at(st_broots(state), old(data.CurrentEpoch) * spec.SLOTS_PER_EPOCH)
-//@   ensures c02_justify_previous: err == nil && spec.SLOTS_PER_EPOCH != 0 && old(data.CurrentEpoch) > 1 && old(data.TotalActiveStake) < 4611686018427387904 && old(data.PrevEpochUnslashedTargetStake) < 4611686018427387904 && old(data.CurrEpochUnslashedTargetStake) < 4611686018427387904 && !(old(data.CurrEpochUnslashedTargetStake) * 3 >= old(data.TotalActiveStake) * 2) && old(data.PrevEpochUnslashedTargetStake) * 3 >= old(data.TotalActiveStake) * 2 ==> n_set_curjust == old(n_set_curjust) + 1 && set_curjust.Epoch == old(data.CurrentEpoch) - 1 && set_curjust.Root == roots_at(st_broots(state), (old(data.CurrentEpoch) - 1) * spec.SLOTS_PER_EPOCH)
-//@   ensures c02_justify_none: err == nil && spec.SLOTS_PER_EPOCH != 0 && old(data.CurrentEpoch) > 1 && old(data.TotalActiveStake) < 4611686018427387904 && old(data.PrevEpochUnslashedTargetStake) < 4611686018427387904 && old(data.CurrEpochUnslashedTargetStake) < 4611686018427387904 && !(old(data.CurrEpochUnslashedTargetStake) * 3 >= old(data.TotalActiveStake) * 2) && !(old(data.PrevEpochUnslashedTargetStake) * 3 >= old(data.TotalActiveStake) * 2) ==> n_set_curjust == old(n_set_curjust)
-//@   ensures c02_fin_4: err == nil && spec.SLOTS_PER_EPOCH != 0 && old(data.CurrentEpoch) > 1 && old(data.TotalActiveStake) < 4611686018427387904 && old(data.PrevEpochUnslashedTargetStake) < 4611686018427387904 && old(data.CurrEpochUnslashedTargetStake) < 4611686018427387904 && st_prevjust(state).Epoch < 4611686018427387904 && st_curjust(state).Epoch < 4611686018427387904 && jbit(set_jbits[0], 0) && jbit(set_jbits[0], 1) && st_curjust(state).Epoch + 1 == old(data.CurrentEpoch) ==> n_set_fin == old(n_set_fin) + 1 && set_fin == st_curjust(state)
-//@   ensures c02_fin_3: err == nil && spec.SLOTS_PER_EPOCH != 0 && old(data.CurrentEpoch) > 1 && old(data.TotalActiveStake) < 4611686018427387904 && old(data.PrevEpochUnslashedTargetStake) < 4611686018427387904 && old(data.CurrEpochUnslashedTargetStake) < 4611686018427387904 && st_prevjust(state).Epoch < 4611686018427387904 && st_curjust(state).Epoch < 4611686018427387904 && jbit(set_jbits[0], 0) && jbit(set_jbits[0], 1) && jbit(set_jbits[0], 2) && st_curjust(state).Epoch + 2 == old(data.CurrentEpoch) ==> n_set_fin == old(n_set_fin) + 1 && set_fin == st_curjust(state)
-//@   ensures c02_fin_2: err == nil && spec.SLOTS_PER_EPOCH != 0 && old(data.CurrentEpoch) > 1 && old(data.TotalActiveStake) < 4611686018427387904 && old(data.PrevEpochUnslashedTargetStake) < 4611686018427387904 && old(data.CurrEpochUnslashedTargetStake) < 4611686018427387904 && st_prevjust(state).Epoch < 4611686018427387904 && st_curjust(state).Epoch < 4611686018427387904 && !(jbit(set_jbits[0], 0) && jbit(set_jbits[0], 1) && st_curjust(state).Epoch + 1 == old(data.CurrentEpoch)) && !(jbit(set_jbits[0], 0) && jbit(set_jbits[0], 1) && jbit(set_jbits[0], 2) && st_curjust(state).Epoch + 2 == old(data.CurrentEpoch)) && jbit(set_jbits[0], 1) && jbit(set_jbits[0], 2) && (st_prevjust(state).Epoch + 2 == old(data.CurrentEpoch) || (jbit(set_jbits[0], 3) && st_prevjust(state).Epoch + 3 == old(data.CurrentEpoch))) ==> n_set_fin == old(n_set_fin) + 1 && set_fin == st_prevjust(state)
-//@   ensures c02_fin_none: err == nil && spec.SLOTS_PER_EPOCH != 0 && old(data.CurrentEpoch) > 1 && old(data.TotalActiveStake) < 4611686018427387904 && old(data.PrevEpochUnslashedTargetStake) < 4611686018427387904 && old(data.CurrEpochUnslashedTargetStake) < 4611686018427387904 && st_prevjust(state).Epoch < 4611686018427387904 && st_curjust(state).Epoch < 4611686018427387904 && !(jbit(set_jbits[0], 0) && jbit(set_jbits[0], 1) && st_curjust(state).Epoch + 1 == old(data.CurrentEpoch)) && !(jbit(set_jbits[0], 0) && jbit(set_jbits[0], 1) && jbit(set_jbits[0], 2) && st_curjust(state).Epoch + 2 == old(data.CurrentEpoch)) && !(jbit(set_jbits[0], 1) && jbit(set_jbits[0], 2) && st_prevjust(state).Epoch + 2 == old(data.CurrentEpoch)) && !(jbit(set_jbits[0], 1) && jbit(set_jbits[0], 2) && jbit(set_jbits[0], 3) && st_prevjust(state).Epoch + 3 == old(data.CurrentEpoch)) ==> n_set_fin == old(n_set_fin)
+//@   ensures c02_rotate: err == nil && spec != nil && state != nil && spec.SLOTS_PER_EPOCH != 0 && old(data.CurrentEpoch) > 1 && old(data.TotalActiveStake) < 4611686018427387904 && old(data.PrevEpochUnslashedTargetStake) < 4611686018427387904 && old(data.CurrEpochUnslashedTargetStake) < 4611686018427387904 ==> n_set_prevjust == old(n_set_prevjust) + 1 && set_prevjust == st_curjust(state)
+//@   ensures c02_bits: err == nil && spec != nil && state != nil && spec.SLOTS_PER_EPOCH != 0 && old(data.CurrentEpoch) > 1 && old(data.TotalActiveStake) < 4611686018427387904 && old(data.PrevEpochUnslashedTargetStake) < 4611686018427387904 && old(data.CurrEpochUnslashedTargetStake) < 4611686018427387904 ==> n_set_jbits == old(n_set_jbits) + 1 && set_jbits[0] == (((st_jbits(state)[0] * 2) % 16) + ite(old(data.PrevEpochUnslashedTargetStake) * 3 >= old(data.TotalActiveStake) * 2 && !jbit(((st_jbits(state)[0] * 2) % 16), 1), 2, 0) + ite(old(data.CurrEpochUnslashedTargetStake) * 3 >= old(data.TotalActiveStake) * 2 && !jbit(((st_jbits(state)[0] * 2) % 16), 0), 1, 0))
+//@   ensures c02_justify_current: err == nil && spec != nil && state != nil && spec.SLOTS_PER_EPOCH != 0 && old(data.CurrentEpoch) > 1 && old(data.TotalActiveStake) < 4611686018427387904 && old(data.PrevEpochUnslashedTargetStake) < 4611686018427387904 && old(data.CurrEpochUnslashedTargetStake) < 4611686018427387904 && old(data.CurrEpochUnslashedTargetStake) * 3 >= old(data.TotalActiveStake) * 2 ==> n_set_curjust == old(n_set_curjust) + 1 && set_curjust.Epoch == old(data.CurrentEpoch) && set_curjust.Root == roots_at(st_broots(state), old(data.CurrentEpoch) * spec.SLOTS_PER_EPOCH)
+//@   ensures c02_justify_previous: err == nil && spec != nil && state != nil && spec.SLOTS_PER_EPOCH != 0 && old(data.CurrentEpoch) > 1 && old(data.TotalActiveStake) < 4611686018427387904 && old(data.PrevEpochUnslashedTargetStake) < 4611686018427387904 && old(data.CurrEpochUnslashedTargetStake) < 4611686018427387904 && !(old(data.CurrEpochUnslashedTargetStake) * 3 >= old(data.TotalActiveStake) * 2) && old(data.PrevEpochUnslashedTargetStake) * 3 >= old(data.TotalActiveStake) * 2 ==> n_set_curjust == old(n_set_curjust) + 1 && set_curjust.Epoch == old(data.CurrentEpoch) - 1 && set_curjust.Root == roots_at(st_broots(state), (old(data.CurrentEpoch) - 1) * spec.SLOTS_PER_EPOCH)
+//@   ensures c02_justify_none: err == nil && spec != nil && state != nil && spec.SLOTS_PER_EPOCH != 0 && old(data.CurrentEpoch) > 1 && old(data.TotalActiveStake) < 4611686018427387904 && old(data.PrevEpochUnslashedTargetStake) < 4611686018427387904 && old(data.CurrEpochUnslashedTargetStake) < 4611686018427387904 && !(old(data.CurrEpochUnslashedTargetStake) * 3 >= old(data.TotalActiveStake) * 2) && !(old(data.PrevEpochUnslashedTargetStake) * 3 >= old(data.TotalActiveStake) * 2) ==> n_set_curjust == old(n_set_curjust)
+//@   ensures c02_fin_4: err == nil && spec != nil && state != nil && spec.SLOTS_PER_EPOCH != 0 && old(data.CurrentEpoch) > 1 && old(data.TotalActiveStake) < 4611686018427387904 && old(data.PrevEpochUnslashedTargetStake) < 4611686018427387904 && old(data.CurrEpochUnslashedTargetStake) < 4611686018427387904 && st_prevjust(state).Epoch < 4611686018427387904 && st_curjust(state).Epoch < 4611686018427387904 && jbit(set_jbits[0], 0) && jbit(set_jbits[0], 1) && st_curjust(state).Epoch + 1 == old(data.CurrentEpoch) ==> n_set_fin == old(n_set_fin) + 1 && set_fin == st_curjust(state)
+//@   ensures c02_fin_3: err == nil && spec != nil && state != nil && spec.SLOTS_PER_EPOCH != 0 && old(data.CurrentEpoch) > 1 && old(data.TotalActiveStake) < 4611686018427387904 && old(data.PrevEpochUnslashedTargetStake) < 4611686018427387904 && old(data.CurrEpochUnslashedTargetStake) < 4611686018427387904 && st_prevjust(state).Epoch < 4611686018427387904 && st_curjust(state).Epoch < 4611686018427387904 && jbit(set_jbits[0], 0) && jbit(set_jbits[0], 1) && jbit(set_jbits[0], 2) && st_curjust(state).Epoch + 2 == old(data.CurrentEpoch) ==> n_set_fin == old(n_set_fin) + 1 && set_fin == st_curjust(state)
+//@   ensures c02_fin_2: err == nil && spec != nil && state != nil && spec.SLOTS_PER_EPOCH != 0 && old(data.CurrentEpoch) > 1 && old(data.TotalActiveStake) < 4611686018427387904 && old(data.PrevEpochUnslashedTargetStake) < 4611686018427387904 && old(data.CurrEpochUnslashedTargetStake) < 4611686018427387904 && st_prevjust(state).Epoch < 4611686018427387904 && st_curjust(state).Epoch < 4611686018427387904 && !(jbit(set_jbits[0], 0) && jbit(set_jbits[0], 1) && st_curjust(state).Epoch + 1 == old(data.CurrentEpoch)) && !(jbit(set_jbits[0], 0) && jbit(set_jbits[0], 1) && jbit(set_jbits[0], 2) && st_curjust(state).Epoch + 2 == old(data.CurrentEpoch)) && jbit(set_jbits[0], 1) && jbit(set_jbits[0], 2) && (st_prevjust(state).Epoch + 2 == old(data.CurrentEpoch) || (jbit(set_jbits[0], 3) && st_prevjust(state).Epoch + 3 == old(data.CurrentEpoch))) ==> n_set_fin == old(n_set_fin) + 1 && set_fin == st_prevjust(state)
+//@   ensures c02_fin_none: err == nil && spec != nil && state != nil && spec.SLOTS_PER_EPOCH != 0 && old(data.CurrentEpoch) > 1 && old(data.TotalActiveStake) < 4611686018427387904 && old(data.PrevEpochUnslashedTargetStake) < 4611686018427387904 && old(data.CurrEpochUnslashedTargetStake) < 4611686018427387904 && st_prevjust(state).Epoch < 4611686018427387904 && st_curjust(state).Epoch < 4611686018427387904 && !(jbit(set_jbits[0], 0) && jbit(set_jbits[0], 1) && st_curjust(state).Epoch + 1 == old(data.CurrentEpoch)) && !(jbit(set_jbits[0], 0) && jbit(set_jbits[0], 1) && jbit(set_jbits[0], 2) && st_curjust(state).Epoch + 2 == old(data.CurrentEpoch)) && !(jbit(set_jbits[0], 1) && jbit(set_jbits[0], 2) && st_prevjust(state).Epoch + 2 == old(data.CurrentEpoch)) && !(jbit(set_jbits[0], 1) && jbit(set_jbits[0], 2) && jbit(set_jbits[0], 3) && st_prevjust(state).Epoch + 3 == old(data.CurrentEpoch)) ==> n_set_fin == old(n_set_fin)
 
 //@ func ProcessProposerSlashings(ctx, spec, epc, state, ops) err
 //@   property C18
@@ -526,6 +525,7 @@ package phase0
 //@   loop *
 //@     invariant ctx_t >= old(ctx_t) && (old(ctx_seen) || !ctx_seen)
 //@     invariant ctx_t > old(ctx_t) ==> !ctx_cancelled(ctx, old(ctx_t))
+//@   assigns ghost(n_set_prevjust), ghost(set_prevjust), ghost(n_set_curjust), ghost(set_curjust), ghost(n_set_fin), ghost(set_fin), ghost(n_set_jbits), ghost(set_jbits)
 
 //@ func (state *BeaconStateView) ProcessBlock(ctx, spec, epc, benv) err
 //@   property C18
